@@ -50,7 +50,7 @@ def worker(pid, tier, seed, shard, nshards, out):
     info = overlay.install()
     mod = load_mod(pid)
     plan = mod.plan(tier)
-    n = plan['n_cases']
+    n = int(os.environ.get('VERIF_NCASES_OVERRIDE', plan['n_cases']))
     if hasattr(mod, 'setup'):
         mod.setup(tier)
     t_end = time.time() + plan.get('budget_s', 1e9)
@@ -149,12 +149,100 @@ def run_check(pid, tier):
                 if tail.strip():
                     problems.append('shard %d log tail: %s' % (s, tail))
 
-    res = aggregate(pid, tier, seed, plan, recs, problems, binfo, served, budget_stops, time.time() - t0, mod)
+    san_info = None
+    if tier == 'thorough' and plan.get('sanitize'):
+        san_info = sanitizer_pass(pid, tier, seed, plan, rdir, env, recs, problems)
+    if tier == 'thorough' and plan.get('suite_monitor'):
+        # the repository's own tests, unedited, as an additional workload under the same monitors
+        out = os.path.join(rdir, 'suite.json')
+        env2 = dict(env, VERIF_PYTEST_OUT=out)
+        try:
+            p = subprocess.run([PY, '-m', 'pytest', '-q', '-p', 'no:cacheprovider', '-p', 'vp.pytest_monitors', '--timeout=900',
+                                '--continue-on-collection-errors', 'compmech'], cwd='/repo', env=env2, timeout=2400,
+                               stdout=subprocess.PIPE, stderr=subprocess.STDOUT, text=True)
+            data = json.load(open(out))
+            for r in data['records']:
+                if r.get('property') == pid or 'harness_error' in r:
+                    r['idx'] = -1
+                    r.setdefault('tags', []).append('workload:repository_test_suite')
+                    recs.append(r)
+        except Exception as e:
+            problems.append('suite-under-monitors workload failed: %r' % (e,))
+    res = aggregate(pid, tier, seed, plan, recs, problems, binfo, served, budget_stops, time.time() - t0, mod, san_info)
     shutil.rmtree(rdir, ignore_errors=True)
     return res
 
 
-def aggregate(pid, tier, seed, plan, recs, problems, binfo, served, budget_stops, wall, mod):
+def sanitizer_pass(pid, tier, seed, plan, rdir, env, recs, problems):
+    """Re-run the first cases of the workload on AddressSanitizer+UBSan builds (gcc) of the named extensions /
+    of the C library, loaded into the same interpreter with LD_PRELOAD.  An ASan report is a violation (memory
+    errors make results depend on heap history); UBSan lines are counted and shown."""
+    from . import build
+    cfg = plan['sanitize']
+    info = {'extensions': cfg.get('extensions', []), 'ctypes_lib': bool(cfg.get('ctypes_lib')), 'cases': 0,
+            'asan_reports': 0, 'ubsan_lines': 0}
+    try:
+        env2 = dict(env)
+        if cfg.get('extensions'):
+            env2['VERIF_OVERLAY_EXTRA'] = build.build_sanitized(cfg['extensions'])
+        if cfg.get('ctypes_lib'):
+            env2['VERIF_SAN_LIB'] = build.build_ctypes_lib(sanitize=True)
+        logp = os.path.join(rdir, 'san')
+        env2['LD_PRELOAD'] = '/usr/lib/x86_64-linux-gnu/libasan.so.8'
+        env2['ASAN_OPTIONS'] = 'detect_leaks=0:halt_on_error=0:log_path=%s' % logp
+        env2['UBSAN_OPTIONS'] = 'print_stacktrace=0:log_path=%s' % logp
+        n = min(cfg.get('n_cases', 64), plan['n_cases'])
+        nsh = min(8, n)
+        procs = []
+        # cases [0, n) through the ordinary worker with a reduced plan size
+        env2['VERIF_NCASES_OVERRIDE'] = str(n)
+        for sh in range(nsh):
+            out = os.path.join(rdir, 'san_shard_%d.jsonl' % sh)
+            log = open(os.path.join(rdir, 'san_shard_%d.log' % sh), 'w')
+            procs.append((out, subprocess.Popen([PY, '-m', 'vp.run', '--worker', pid, 'quick', str(seed), str(sh), str(nsh), out],
+                                                env=env2, cwd=VERIF, stdout=log, stderr=subprocess.STDOUT), log))
+        for out, p, log in procs:
+            try:
+                p.wait(timeout=3600)
+            except subprocess.TimeoutExpired:
+                p.kill(); problems.append('sanitizer shard hit its watchdog')
+            log.close()
+            if os.path.exists(out):
+                for line in open(out):
+                    try:
+                        r = json.loads(line)
+                    except ValueError:
+                        continue
+                    if 'idx' in r:
+                        r.setdefault('tags', []).append('workload:sanitizer_build')
+                        r['key'] = 'san:' + str(r.get('key'))
+                        recs.append(r); info['cases'] += 1
+        import glob
+        samples = []
+        for f in glob.glob(logp + '.*') + glob.glob(os.path.join(rdir, 'san_shard_*.log')):
+            txt = open(f, errors='replace').read()
+            na = txt.count('ERROR: AddressSanitizer')
+            info['asan_reports'] += na
+            info['ubsan_lines'] += txt.count('runtime error:')
+            if na:
+                i = txt.index('ERROR: AddressSanitizer')
+                samples.append(txt[i:i + 1500])
+            elif 'runtime error:' in txt and len(samples) < 2:
+                i = txt.index('runtime error:')
+                samples.append(txt[max(0, i - 200):i + 300])
+        info['report_samples'] = samples[:3]
+        if info['asan_reports']:
+            recs.append({'idx': -2, 'desc': {'workload': 'sanitizer build'}, 'key': 'asan', 'nontrivial': False, 'checks': 1, 'margin': 0.0,
+                         'tags': [], 'rej': None, 'hits': {}, 'info': {},
+                         'viol': [{'clause': 'no AddressSanitizer report on the sanitized build', 'msg': samples[0][:500] if samples else ''}]})
+        if info['cases'] == 0:
+            problems.append('sanitizer pass judged no case')
+    except Exception as e:
+        problems.append('sanitizer pass failed: %r' % (e,))
+    return info
+
+
+def aggregate(pid, tier, seed, plan, recs, problems, binfo, served, budget_stops, wall, mod, san_info=None):
     kf = known_findings()
     open_mech = {e['mechanism']: e for e in kf.get('open', []) if e['property'] == pid}
     harness = [r for r in recs if 'harness_error' in r]
@@ -271,6 +359,8 @@ def aggregate(pid, tier, seed, plan, recs, problems, binfo, served, budget_stops
         'verdict': 'violated' if viols else ('inconclusive' if reasons else 'held'),
         'inconclusive_reasons': reasons,
     }
+    if san_info is not None:
+        ev['coverage']['sanitizer'] = san_info
     if hasattr(mod, 'extra_evidence'):
         try:
             ev['coverage'].update(mod.extra_evidence(cases))
